@@ -29,6 +29,11 @@ func serializeRun(fs *h.ForkSession, irs []h.InvokeResult) string {
 		fmt.Fprintf(&b, "log %s %v %x\n", l.Address.Hex(), l.Topics, l.Data)
 	}
 	fmt.Fprintf(&b, "refund=%d root=%s\n", fs.DB.GetRefund(), fs.DB.IntermediateRoot(fs.Rules.IsEIP158).Hex())
+	for i := range fs.L.Events {
+		if e := &fs.L.Events[i]; e.K == h.KCtxSet || e.K == h.KCtxGet || e.K == h.KJITSender {
+			fmt.Fprintf(&b, "host %s addr=%s key=%x value=%x hash=%x\n", e.K, e.Addr.Hex(), e.CtxKey, e.Bytes, e.Key)
+		}
+	}
 	tr := fs.EVM.Tracer()
 	ct := tr.CallTree()
 	for i := uint64(0); ; i++ {
